@@ -212,9 +212,13 @@ func (c *Ctl) Loop(done func() bool) {
 		if k < len(c.prefix) {
 			i = c.prefix[k]
 			if i >= len(es) || (k < len(c.expect) && !sameLabels(c.expect[k], labels)) {
+				// the system under test took a different turn than in the parent execution (uncontrolled
+				// nondeterminism: map iteration, runtime scheduling of pool workers). The execution is still a
+				// real one: finish it with default choices so that the oracle can judge it.
 				c.Diverged = true
 				c.divMsg = fmt.Sprintf("decision %d: want choice %d of %v, enabled now %v", k, i, expectAt(c.expect, k), labels)
-				return
+				c.prefix = c.prefix[:k]
+				i = 0
 			}
 		}
 		c.Choices = append(c.Choices, i)
@@ -301,6 +305,7 @@ type Stats struct {
 	ByCost                                     map[int]int64
 	Outcomes                                   map[string]int64
 	PerScenario                                map[string]int64
+	DivergeMsgs                                []string
 	Nontrivial                                 map[string]bool
 	MaxDepth                                   int
 	Exhaustive                                 bool
@@ -370,32 +375,25 @@ func (e *Explorer) RunOnce(sc *Scenario, prefix []int, expect [][]string) (res e
 }
 
 func (e *Explorer) runStable(sc *Scenario, prefix []int, expect [][]string) (execResult, bool) {
-	for attempt := 0; attempt < 40; attempt++ {
-		r := e.RunOnce(sc, prefix, expect)
+	var r execResult
+	for attempt := 0; attempt < 12; attempt++ {
+		r = e.RunOnce(sc, prefix, expect)
 		if !r.ctl.Diverged {
 			return r, true
 		}
 		e.Stats.Retries++
+		// a diverged execution is still a real execution: judge it
+		e.judge(sc, r, true)
 	}
 	e.Stats.Divergent++
-	return execResult{}, false
+	if len(e.Stats.DivergeMsgs) < 5 {
+		e.Stats.DivergeMsgs = append(e.Stats.DivergeMsgs, fmt.Sprintf("%s %v: %s", sc.Name, prefix, r.ctl.divMsg))
+	}
+	return r, false
 }
 
-// Explore runs the deviation-bounded DFS for one scenario.
-func (e *Explorer) Explore(sc *Scenario) {
-	e.explore(sc, nil, nil, 0, 0)
-}
-
-func (e *Explorer) explore(sc *Scenario, prefix []int, expect [][]string, costSoFar int, level int) {
-	if !e.Deadline.IsZero() && time.Now().After(e.Deadline) {
-		e.Stats.Exhaustive = false
-		return
-	}
-	r, ok := e.runStable(sc, prefix, expect)
-	if !ok {
-		e.Stats.Exhaustive = false // a schedule we could not reproduce (uncontrolled nondeterminism)
-		return
-	}
+// judge records outcome and violations of one finished execution.
+func (e *Explorer) judge(sc *Scenario, r execResult, diverged bool) {
 	x := r.ctl
 	e.Stats.Executions++
 	e.Stats.PerScenario[sc.Name]++
@@ -410,7 +408,9 @@ func (e *Explorer) explore(sc *Scenario, prefix []int, expect [][]string, costSo
 	for _, d := range x.Trace {
 		total += d.Costs[d.Chosen]
 	}
-	e.Stats.ByCost[total]++
+	if !diverged {
+		e.Stats.ByCost[total]++
+	}
 	e.Stats.Outcomes[sc.Name+": "+r.out.Summary]++
 	if r.out.Nontrivial {
 		e.Stats.Nontrivial[sc.Name+fmt.Sprint(x.Choices)] = true
@@ -426,8 +426,8 @@ func (e *Explorer) explore(sc *Scenario, prefix []int, expect [][]string, costSo
 		}
 		// replay from the recorded choice list; it has to fail again the same way
 		for i := 0; i < 5; i++ {
-			rr, ok := e.runStable(sc, x.Choices, traceLabels(x.Trace))
-			if !ok {
+			rr := e.RunOnce(sc, x.Choices, traceLabels(x.Trace))
+			if rr.ctl.Diverged {
 				continue
 			}
 			for _, v2 := range rr.out.Violations {
@@ -439,6 +439,25 @@ func (e *Explorer) explore(sc *Scenario, prefix []int, expect [][]string, costSo
 		}
 		e.Found = append(e.Found, f)
 	}
+}
+
+// Explore runs the deviation-bounded DFS for one scenario.
+func (e *Explorer) Explore(sc *Scenario) {
+	e.explore(sc, nil, nil, 0, 0)
+}
+
+func (e *Explorer) explore(sc *Scenario, prefix []int, expect [][]string, costSoFar int, level int) {
+	if !e.Deadline.IsZero() && time.Now().After(e.Deadline) {
+		e.Stats.Exhaustive = false
+		return
+	}
+	r, ok := e.runStable(sc, prefix, expect)
+	if !ok {
+		e.Stats.Exhaustive = false // a schedule we could not reproduce (uncontrolled nondeterminism); its subtree is not expanded
+		return
+	}
+	x := r.ctl
+	e.judge(sc, r, false)
 	labels := traceLabels(x.Trace)
 	cost := costSoFar
 	for i := len(prefix); i < len(x.Trace); i++ {
